@@ -173,7 +173,8 @@ func escapeTable(fd *eng.FuncDecl) (map[byte]int, *ast.SwitchStmt) {
 		// one-byte escapes may be kept in a read-only package-level table indexed by the escape character
 		// (tbl[next] or tbl[next].field as the argument of WriteByte)
 		for k, v := range escapeLookupTable(fd, best.Tag) {
-			if _, dup := bestTab[k]; !dup {
+			if cur, dup := bestTab[k]; !dup || (cur == -3 && (k < '0' || k > '7')) {
+				// no clause of its own, or a clause that writes the table's entry for the character
 				bestTab[k] = v
 			}
 		}
@@ -780,7 +781,15 @@ func ruleOperatorAlphabet(c *eng.Ctx) {
 					inner = be.Y
 				}
 			}
+			// the byte under the cursor, however the cursor is named: the first element selection in the condition
 			free := "p.data[end]"
+			found := false
+			ast.Inspect(inner, func(n ast.Node) bool {
+				if ix, ok := n.(*ast.IndexExpr); ok && !found {
+					free, found = types.ExprString(ix), true
+				}
+				return !found
+			})
 			cont, err := c.P.ExprByteSet(fd, inner, free, nil)
 			if err != nil {
 				c.Undec(R, "contentstream.(*Parser).regularRunEnd", fd.Decl.Pos(), "not a closed byte predicate: "+err.Error())
